@@ -85,6 +85,16 @@ CHECKS = {
    text="Exhaustive over every quadratic/cubic 1-D control tuple on 0..V with rational critical points along (1,0) and (3,4) (cusps, zero length, coincident controls) x 8 maps (isometries, scalings) x reversal x error settings 1e-4/1e-6/1e-9; circles of 1..4 quarter turns; polyline words with moves walked at t = j/8 (also as Polyline shapes); every history of <= MaxOps queries and edits (point(t) must be a function of the current segments); for all segments incl. generic curves: length unchanged by rotation/reflection/translation/reversal, scaled by |s|, chord <= length <= control polygon, path length = sum.",
    note="Trusted: TLC, ArcLen.tla, Rat.tla. NOT decided: accuracy of length() to the requested error for generic (non-collinear) Beziers and eccentric arcs - TLC has no reals; only the relational laws cover them. Known finding: collinear cubics with a cusp ignore the requested error.",
    design="5/C15"),
+ "C03": dict(
+   technique="TLA+ DocCore (document walker as a fold of element tokens over inherited contexts: CTM, nearest viewport, display, use expansion) with Shapes/Viewport/PathOps; TLC enumerates every token prefix x caller configuration; each document serialised, parsed with reify True/False and compared shape by shape",
+   text="Every token prefix of <= MaxTok elements over the vocabulary (3 root svg variants incl. viewBox/preserveAspectRatio/own transform, g with transforms, nested svg with and without viewBox, defs, rect/circle/line/path/... with absolute, unit, percentage and omitted lengths and own transforms, use with x/y incl. use of a group, forward, chained and dangling references, display:none) x caller width/height/transform; the spec's rendered list (kind, user-space geometry, CTM) is the oracle for count, order, class and absolute geometry of the shapes the real parser returns, identically with and without reification.",
+   note="Trusted: TLC, DocCore/Shapes/Viewport/PathOps/Affine.tla, XML serialisation (docutil.py), the c06 geometry comparator. Reference cycles are excluded here (C10). rx/ry percentages, text/image/clipPath/pattern/symbol are outside the vocabulary.",
+   design="5/C03"),
+ "C14": dict(
+   technique="TLA+ DocPaint (CSS cascade: inline > rules by specificity then order > presentation attribute; inheritance; currentColor; opacity) plugged into DocCore; TLC enumerates source subsets, rule orders, chains, use, currentColor, opacity cases; each parsed and its fill/stroke/stroke_width compared",
+   text="Exhaustive: 3 properties x all 128 subsets of the 7 sources x 2 rule orders on one element; 4^3 x 2^3 chains of depth 3 x 5 ancestor transforms (incl. rotation, negative determinant); use of a styled definition (own > use > ancestor); currentColor x where color comes from x caller colour; fill-/stroke-opacity by attribute / inline / inheritance. Fill and stroke are compared as RGBA (alpha from the opacity), stroke_width as the declared width and the effective width sw * sqrt|det CTM|.",
+   note="Trusted: TLC, DocPaint.tla, style-sheet text generation. vector-effect, descendant/attribute selectors, !important are not modelled. A transform that cannot be reified stays on the shape with the unscaled width: the effective width is what is compared then.",
+   design="5/C14"),
 }
 NOT_BUILT = "check not built yet (planned: DESIGN.md section 5)"
 
